@@ -238,9 +238,12 @@ Proof.
   split.
   - destruct a, b; cbn; intros H; try discriminate; try reflexivity;
       repeat (apply andb_true_iff in H; destruct H as [H ?]);
-      repeat match goal with E : Nat.eqb _ _ = true |- _ => apply Nat.eqb_eq in E end;
+      repeat match goal with
+             | E : Nat.eqb _ _ = true |- _ => apply Nat.eqb_eq in E
+             | E : Z.eqb _ _ = true |- _ => apply Z.eqb_eq in E
+             end;
       subst; reflexivity.
-  - intros <-. destruct a; cbn; rewrite ?Nat.eqb_refl; reflexivity.
+  - intros <-. destruct a; cbn; rewrite ?Nat.eqb_refl, ?Z.eqb_refl; reflexivity.
 Qed.
 
 Lemma colkey_eqb_refl a : colkey_eqb a a = true.
@@ -280,9 +283,10 @@ Qed.
 Lemma all_cols_incl recs r k : In r recs -> In k (map fst r) -> In k (all_cols recs).
 Proof. intros Hr Hk. unfold all_cols. apply all_cols_from_incl. right. exists r. split; assumption. Qed.
 
-(* position-wise reading of a CSV row: the field under the first column called k *)
-Definition csv_get (c : csv) (row : list cval) (k : colkey) : option cval :=
-  klookup k (combine (v_cols c) row).
+(* position-wise reading of a row: the cell under the first column called k *)
+Definition tget {B} (cols : list colkey) (row : list B) (k : colkey) : option B :=
+  klookup k (combine cols row).
+Definition csv_get (c : csv) (row : list cval) (k : colkey) : option cval := tget (v_cols c) row k.
 
 Lemma select_lookup {A B} (kp : colkey -> bool) (g : colkey -> A) (h : colkey -> A -> B) cols k :
   kp k = true -> In k cols ->
@@ -304,14 +308,6 @@ Proof.
   destruct (colkey_eqb k k') eqn:E.
   - intros _. left. apply colkey_eqb_eq in E. congruence.
   - intros H. right. apply IH. exact H.
-Qed.
-
-Lemma klookup_app_skip {A} k (a b : list (colkey * A)) :
-  (forall k', In k' (map fst a) -> colkey_eqb k k' = false) ->
-  klookup k (a ++ b) = klookup k b.
-Proof.
-  induction a as [|[k' v'] t IH]; cbn; intros H; [reflexivity|].
-  rewrite (H k' (or_introl eq_refl)). apply IH. intros k'' Hk. apply H. right. exact Hk.
 Qed.
 
 Lemma mapM_length {A B} (f : A -> res B) l l' : mapM f l = Ok l' -> length l' = length l.
@@ -336,38 +332,86 @@ Qed.
 Lemma Ok_inj {A} (a b : A) : Ok a = Ok b -> a = b.
 Proof. intros H. inversion H. reflexivity. Qed.
 
-(* all keys of the record of levels lv0, lv0+1, ... carry a level >= lv0 *)
-Definition key_level_ge (lv0 : nat) (k : colkey) : Prop :=
-  match col_level k with Some lv => (lv0 <= lv)%nat | None => False end.
+(* --- the dict: a key holds the value of its LAST assignment --- *)
+Fixpoint klast {A} (k : colkey) (kvs : list (colkey * A)) : option A :=
+  match kvs with
+  | [] => None
+  | (k', v) :: t =>
+      match klast k t with
+      | Some w => Some w
+      | None => if colkey_eqb k k' then Some v else None
+      end
+  end.
 
-Lemma level_elements_keys lv l k : In k (map fst (level_elements lv l)) -> col_level k = Some lv.
+Lemma klookup_dset {A} k k' (v : A) r :
+  klookup k (dset k' v r) = if colkey_eqb k k' then Some v else klookup k r.
+Proof.
+  induction r as [|[k2 v2] t IH]; cbn; [reflexivity|].
+  destruct (colkey_eqb k' k2) eqn:E2; cbn.
+  - apply colkey_eqb_eq in E2. subst k2. destruct (colkey_eqb k k'); reflexivity.
+  - rewrite IH. destruct (colkey_eqb k k2) eqn:Ea; destruct (colkey_eqb k k') eqn:Eb; try reflexivity.
+    apply colkey_eqb_eq in Ea. apply colkey_eqb_eq in Eb. subst. rewrite colkey_eqb_refl in E2. discriminate.
+Qed.
+
+Lemma klookup_fold_dset {A} k (kvs : list (colkey * A)) : forall r,
+  klookup k (fold_left (fun r kv => dset (fst kv) (snd kv) r) kvs r)
+  = match klast k kvs with Some w => Some w | None => klookup k r end.
+Proof.
+  induction kvs as [|[k' v] t IH]; intros r; cbn; [reflexivity|].
+  rewrite IH, klookup_dset. destruct (klast k t); [reflexivity|].
+  destruct (colkey_eqb k k'); reflexivity.
+Qed.
+
+Lemma klookup_dict_of {A} k (kvs : list (colkey * A)) : klookup k (dict_of kvs) = klast k kvs.
+Proof. unfold dict_of. rewrite klookup_fold_dset. destruct (klast k kvs); reflexivity. Qed.
+
+Lemma klast_app {A} k (a b : list (colkey * A)) :
+  klast k (a ++ b) = match klast k b with Some w => Some w | None => klast k a end.
+Proof.
+  induction a as [|[k' v] t IH]; cbn.
+  - destruct (klast k b); reflexivity.
+  - rewrite IH. destruct (klast k b); reflexivity.
+Qed.
+
+Lemma klast_none {A} k (l : list (colkey * A)) :
+  (forall k', In k' (map fst l) -> colkey_eqb k k' = false) -> klast k l = None.
+Proof.
+  induction l as [|[k' v] t IH]; cbn; intros H; [reflexivity|].
+  rewrite IH by (intros k2 Hk; apply H; right; exact Hk).
+  rewrite (H k' (or_introl eq_refl)). reflexivity.
+Qed.
+
+(* --- which keys a level writes --- *)
+Lemma level_elements_keys rl l k :
+  In k (map fst (level_elements rl l)) -> (exists f, k = KField rl f) \/ (exists kd i, k = KRun rl kd i).
 Proof.
   unfold level_elements. rewrite !map_app, !in_app_iff. cbn.
-  intros [[<-|[<-|[]]]|[H|[<-|[<-|[]]]]]; try reflexivity.
+  intros [[<-|[<-|[]]]|[H|[<-|[<-|[]]]]]; try (left; eexists; reflexivity).
   destruct (l_run l) as [r|]; [|destruct H].
   rewrite !map_app, !in_app_iff, !map_map in H. cbn in H.
-  destruct H as [H|[H|H]]; apply in_map_iff in H; destruct H as (p & <- & _); reflexivity.
+  destruct H as [H|[H|H]]; apply in_map_iff in H; destruct H as (p & <- & _); right; eexists; eexists; reflexivity.
 Qed.
 
-Lemma level_record_keys nm lf lv level l k :
-  In k (map fst (level_record nm lf lv level l)) -> col_level k = Some lv.
+Lemma level_record_keys nm lf level l k :
+  In k (map fst (level_record nm lf level l)) -> col_level k = Some (level_to_name nm level).
 Proof.
-  unfold level_record. rewrite !map_app, !in_app_iff. cbn.
+  unfold level_record. cbn zeta. rewrite !map_app, !in_app_iff. cbn.
   intros [[<-|[<-|[]]]|[H|H]]; try reflexivity.
   - destruct lf; [destruct H as [<-|[]]; reflexivity | destruct H].
-  - eapply level_elements_keys. exact H.
+  - apply level_elements_keys in H. destruct H as [(f & ->)|(kd & i & ->)]; reflexivity.
 Qed.
 
-Lemma levels_record_keys nm : forall hier lv0 ls r k,
-  levels_record nm lv0 hier ls = Ok r -> In k (map fst r) -> key_level_ge lv0 k.
+Lemma levels_record_keys nm : forall hier ls r k,
+  levels_record nm hier ls = Ok r -> In k (map fst r) ->
+  exists level, In level hier /\ col_level k = Some (level_to_name nm level).
 Proof.
-  induction hier as [|level ht IH]; intros lv0 ls r k H Hk; cbn [levels_record] in H.
+  induction hier as [|level ht IH]; intros ls r k H Hk; cbn [levels_record] in H.
   - inversion H; subst. destruct Hk.
   - destruct ls as [|l lt]; [discriminate|].
-    destruct (levels_record nm (S lv0) ht lt) as [rest|] eqn:E; cbn [bind] in H; [|discriminate].
+    destruct (levels_record nm ht lt) as [rest|] eqn:E; cbn [bind] in H; [|discriminate].
     apply Ok_inj in H. subst r. rewrite map_app, in_app_iff in Hk. destruct Hk as [Hk|Hk].
-    + apply level_record_keys in Hk. unfold key_level_ge. rewrite Hk. lia.
-    + pose proof (IH _ _ _ _ E Hk) as G. unfold key_level_ge in *. destruct (col_level k); [lia | exact G].
+    + exists level. split; [left; reflexivity | eapply level_record_keys; exact Hk].
+    + destruct (IH _ _ _ E Hk) as (lv & Hin & Hc). exists lv. split; [right; exact Hin | exact Hc].
 Qed.
 
 Lemma colkey_level_neq k k' : col_level k <> col_level k' -> colkey_eqb k k' = false.
@@ -376,73 +420,171 @@ Proof.
   apply colkey_eqb_eq in E. subst. contradiction.
 Qed.
 
-(* the value of one level's own columns in that level's record *)
+(* the value of one level's own columns among that level's assignments *)
 Definition conf_value (conf : nat) (l : lvl) : rat := match conf with O => l_prob l | _ => l_corr l end.
 
-Lemma level_record_values nm lf lv level l rest :
-  klookup (KLabel lv) (level_record nm lf lv level l ++ rest) = Some (DName (l_assign l)) /\
-  klookup (KName lv) (level_record nm lf lv level l ++ rest) = Some (DName (label_to_name nm level (l_assign l) false)) /\
-  (lf = true -> klookup (KAlias lv) (level_record nm lf lv level l ++ rest)
-                = Some (DName (label_to_name nm level (l_assign l) true))) /\
-  (forall conf, (conf < 2)%nat ->
-     klookup (KField lv conf) (level_record nm lf lv level l ++ rest) = Some (DNum (conf_value conf l))).
+Lemma klast_elements_field rl l conf :
+  (conf < 2)%nat -> klast (KField rl conf) (level_elements rl l) = Some (DNum (conf_value conf l)).
 Proof.
-  unfold level_record, level_elements. cbn [app klookup colkey_eqb]. rewrite !Nat.eqb_refl.
-  split; [reflexivity|]. split; [reflexivity|]. split.
-  - intros ->. cbn [app klookup colkey_eqb]. rewrite Nat.eqb_refl. reflexivity.
-  - intros conf Hc. destruct lf; cbn [app klookup colkey_eqb]; rewrite ?Nat.eqb_refl;
-      (destruct conf as [|[|conf]]; [reflexivity | reflexivity | lia]).
+  intros Hc. unfold level_elements. rewrite !klast_app.
+  assert (E2 : klast (KField rl conf) [(KField rl 2, DNum (l_agg l)); (KField rl 3, DBool (l_direct l))] = None).
+  { cbn. rewrite Z.eqb_refl. destruct conf as [|[|conf]]; [reflexivity | reflexivity | lia]. }
+  rewrite E2.
+  assert (ER : klast (KField rl conf)
+                 (match l_run l with
+                  | None => []
+                  | Some r =>
+                      map (fun p => (KRun rl 0 (fst p), DName (snd p))) (enum_from 0 (ru_assign r)) ++
+                      map (fun p => (KRun rl 1 (fst p), DNum (snd p))) (enum_from 0 (ru_corr r)) ++
+                      map (fun p => (KRun rl 2 (fst p), DNum (snd p))) (enum_from 0 (ru_prob r))
+                  end) = None).
+  { apply klast_none. intros k' Hk. destruct (l_run l) as [r|]; [|destruct Hk].
+    rewrite !map_app, !in_app_iff, !map_map in Hk. cbn in Hk.
+    destruct Hk as [H|[H|H]]; apply in_map_iff in H; destruct H as (p & <- & _); reflexivity. }
+  rewrite ER. cbn. rewrite Z.eqb_refl.
+  destruct conf as [|[|conf]]; [reflexivity | reflexivity | lia].
 Qed.
 
-Lemma levels_record_values nm : forall hier lv0 ls r j level l,
-  levels_record nm lv0 hier ls = Ok r ->
-  nth_error hier j = Some level -> nth_error ls j = Some l ->
-  klookup (KLabel (lv0 + j)) r = Some (DName (l_assign l)) /\
-  klookup (KName (lv0 + j)) r = Some (DName (label_to_name nm level (l_assign l) false)) /\
-  (S j = length hier -> klookup (KAlias (lv0 + j)) r = Some (DName (label_to_name nm level (l_assign l) true))) /\
-  (forall conf, (conf < 2)%nat -> klookup (KField (lv0 + j) conf) r = Some (DNum (conf_value conf l))).
+Lemma level_record_values nm lf level l :
+  let rl := level_to_name nm level in
+  klast (KLabel rl) (level_record nm lf level l) = Some (DName (l_assign l)) /\
+  klast (KName rl) (level_record nm lf level l) = Some (DName (label_to_name nm level (l_assign l) false)) /\
+  (lf = true -> klast (KAlias rl) (level_record nm lf level l)
+                = Some (DName (label_to_name nm level (l_assign l) true))) /\
+  (forall conf, (conf < 2)%nat ->
+     klast (KField rl conf) (level_record nm lf level l) = Some (DNum (conf_value conf l))).
 Proof.
-  induction hier as [|lv_label ht IH]; intros lv0 ls r j level l H Hh Hl; [destruct j; discriminate|].
+  intros rl. unfold level_record. fold rl.
+  assert (Hel : forall k, (forall f, k <> KField rl f) -> (forall kd i, k <> KRun rl kd i) ->
+                          klast k (level_elements rl l) = None).
+  { intros k H1 H2. apply klast_none. intros k' Hk. apply level_elements_keys in Hk.
+    destruct (colkey_eqb k k') eqn:E; [|reflexivity]. apply colkey_eqb_eq in E. subst k'.
+    destruct Hk as [(f & ->)|(kd & i & ->)]; [destruct (H1 f eq_refl) | destruct (H2 kd i eq_refl)]. }
+  assert (Hal : forall k, (forall x, k <> KAlias x) ->
+            klast k (if lf then [(KAlias rl, DName (label_to_name nm level (l_assign l) true))] else []) = None).
+  { intros k H. destruct lf; [|reflexivity]. cbn.
+    destruct (colkey_eqb k (KAlias rl)) eqn:E; [|reflexivity]. apply colkey_eqb_eq in E. destruct (H rl E). }
+  repeat split.
+  - rewrite !klast_app, Hel, Hal by (intros; discriminate). cbn. rewrite Z.eqb_refl. reflexivity.
+  - rewrite !klast_app, Hel, Hal by (intros; discriminate). cbn. rewrite Z.eqb_refl. reflexivity.
+  - intros ->. rewrite !klast_app, Hel by (intros; discriminate). cbn. rewrite Z.eqb_refl. reflexivity.
+  - intros conf Hc. rewrite !klast_app, klast_elements_field by exact Hc. reflexivity.
+Qed.
+
+(* a level's columns hold that level's values PROVIDED no later level has the same readable name
+   (a later level overwrites them: F31) *)
+Lemma levels_record_values nm : forall hier ls r j level l,
+  NoDup (map (level_to_name nm) hier) ->
+  levels_record nm hier ls = Ok r ->
+  nth_error hier j = Some level -> nth_error ls j = Some l ->
+  let rl := level_to_name nm level in
+  klast (KLabel rl) r = Some (DName (l_assign l)) /\
+  klast (KName rl) r = Some (DName (label_to_name nm level (l_assign l) false)) /\
+  (S j = length hier -> klast (KAlias rl) r = Some (DName (label_to_name nm level (l_assign l) true))) /\
+  (forall conf, (conf < 2)%nat -> klast (KField rl conf) r = Some (DNum (conf_value conf l))).
+Proof.
+  induction hier as [|lv_label ht IH]; intros ls r j level l Hnd H Hh Hl; [destruct j; discriminate|].
   cbn [levels_record] in H. destruct ls as [|l0 lt]; [discriminate|].
-  destruct (levels_record nm (S lv0) ht lt) as [rest|] eqn:E; cbn [bind] in H; [|discriminate].
-  apply Ok_inj in H. subst r.
+  destruct (levels_record nm ht lt) as [rest|] eqn:E; cbn [bind] in H; [|discriminate].
+  apply Ok_inj in H. subst r. cbn [map] in Hnd. apply NoDup_cons_iff in Hnd. destruct Hnd as [Hnot Hnd].
   destruct j as [|j]; cbn in Hh, Hl.
-  - inversion Hh; inversion Hl; subst. rewrite Nat.add_0_r.
-    destruct (level_record_values nm (match ht with [] => true | _ => false end) lv0 level l rest)
-      as (A & B & C & D).
-    split; [exact A|]. split; [exact B|]. split; [|exact D].
-    intros Hlen. apply C. destruct ht; [reflexivity | cbn in Hlen; lia].
-  - assert (Hskip : forall k, col_level k = Some (lv0 + S j)%nat ->
-              klookup k (level_record nm (match ht with [] => true | _ => false end) lv0 lv_label l0 ++ rest)
-              = klookup k rest).
-    { intros k Hk. apply klookup_app_skip. intros k' Hk'. apply level_record_keys in Hk'.
-      apply colkey_level_neq. rewrite Hk, Hk'. intros X. inversion X. lia. }
-    replace (lv0 + S j)%nat with (S lv0 + j)%nat in * by lia.
-    destruct (IH (S lv0) lt rest j level l E Hh Hl) as (A & B & C & D).
-    rewrite !Hskip by reflexivity.
+  - inversion Hh; inversion Hl; subst. intros rl.
+    assert (Hrest : forall k, col_level k = Some rl -> klast k rest = None).
+    { intros k Hk. apply klast_none. intros k' Hk'.
+      destruct (levels_record_keys nm ht lt rest k' E Hk') as (lv & Hin & Hc).
+      apply colkey_level_neq. rewrite Hk, Hc. intros X. inversion X as [X']. apply Hnot.
+      unfold rl in X'. rewrite X'. apply in_map. exact Hin. }
+    destruct (level_record_values nm (match ht with [] => true | _ => false end) level l) as (A & B & C & D).
+    fold rl in A, B, C, D.
+    rewrite !klast_app, !Hrest by reflexivity.
     split; [exact A|]. split; [exact B|]. split.
-    + intros Hlen. apply C. cbn in Hlen. lia.
-    + intros conf Hc. rewrite Hskip by reflexivity. apply D. exact Hc.
+    + intros Hlen. rewrite ?klast_app, ?Hrest by reflexivity. apply C. destruct ht; [reflexivity | cbn in Hlen; lia].
+    + intros conf Hc. rewrite klast_app, Hrest by reflexivity. apply D. exact Hc.
+  - intros rl. destruct (IH lt rest j level l Hnd E Hh Hl) as (A & B & C & D). fold rl in A, B, C, D.
+    rewrite !klast_app, A, B.
+    split; [reflexivity|]. split; [reflexivity|]. split.
+    + intros Hlen. rewrite ?klast_app, C by (cbn in Hlen; lia). reflexivity.
+    + intros conf Hc. rewrite klast_app, D by exact Hc. reflexivity.
 Qed.
 
 Lemma cell_record_values nm hier c r :
+  NoDup (map (level_to_name nm) hier) ->
   cell_record nm hier c = Ok r ->
   klookup KId r = Some (DName (c_id c)) /\
   forall j level l, nth_error hier j = Some level -> nth_error (c_levels c) j = Some l ->
-    klookup (KLabel j) r = Some (DName (l_assign l)) /\
-    klookup (KName j) r = Some (DName (label_to_name nm level (l_assign l) false)) /\
-    (S j = length hier -> klookup (KAlias j) r = Some (DName (label_to_name nm level (l_assign l) true))) /\
-    (forall conf, (conf < 2)%nat -> klookup (KField j conf) r = Some (DNum (conf_value conf l))).
+    let rl := level_to_name nm level in
+    klookup (KLabel rl) r = Some (DName (l_assign l)) /\
+    klookup (KName rl) r = Some (DName (label_to_name nm level (l_assign l) false)) /\
+    (S j = length hier -> klookup (KAlias rl) r = Some (DName (label_to_name nm level (l_assign l) true))) /\
+    (forall conf, (conf < 2)%nat -> klookup (KField rl conf) r = Some (DNum (conf_value conf l))).
 Proof.
-  unfold cell_record. destruct (levels_record nm 0 hier (c_levels c)) as [lr|] eqn:E; cbn; [|discriminate].
-  intros H. inversion H; subst r. clear H. split; [reflexivity|].
-  intros j level l Hh Hl.
-  destruct (levels_record_values nm hier 0%nat _ _ j level l E Hh Hl) as (A & B & C & D).
-  cbn [klookup colkey_eqb]. cbn [Nat.add] in *. repeat split; auto.
+  intros Hnd. unfold cell_record.
+  destruct (levels_record nm hier (c_levels c)) as [lr|] eqn:E; cbn [bind]; [|discriminate].
+  intros H. apply Ok_inj in H. subst r. split.
+  - rewrite klookup_dict_of. cbn [klast].
+    rewrite klast_none; [reflexivity|]. intros k' Hk'.
+    destruct (levels_record_keys nm hier _ lr k' E Hk') as (lv & _ & Hc).
+    apply colkey_level_neq. rewrite Hc. discriminate.
+  - intros j level l Hh Hl.
+    destruct (levels_record_values nm hier _ _ j level l Hnd E Hh Hl) as (A & B & C & D).
+    rewrite !klookup_dict_of. cbn [klast]. rewrite A, B.
+    split; [reflexivity|]. split; [reflexivity|]. split.
+    + intros Hlen. rewrite ?klookup_dict_of. cbn [klast]. rewrite (C Hlen). reflexivity.
+    + intros conf Hc. rewrite klookup_dict_of. cbn [klast]. rewrite (D conf Hc). reflexivity.
+Qed.
+
+(* the table, whatever is made of a cell (render): the CSV fields and the CSV text are two instances *)
+Theorem table_rows {B} (render : colkey -> option dval -> B) nm hier conf sticky b cols rows :
+  (conf < 2)%nat ->
+  NoDup (map (level_to_name nm) hier) ->
+  blob_to_table render nm hier conf sticky b = Ok (cols, rows) ->
+  length rows = length b /\
+  forall i cl row,
+    nth_error b i = Some cl -> nth_error rows i = Some row ->
+    tget cols row KId = Some (render KId (Some (DName (c_id cl)))) /\
+    forall j level l,
+      nth_error hier j = Some level -> nth_error (c_levels cl) j = Some l ->
+      let rl := level_to_name nm level in
+      tget cols row (KLabel rl) = Some (render (KLabel rl) (Some (DName (l_assign l)))) /\
+      tget cols row (KName rl) = Some (render (KName rl) (Some (DName (label_to_name nm level (l_assign l) false)))) /\
+      (S j = length hier ->
+         tget cols row (KAlias rl) = Some (render (KAlias rl) (Some (DName (label_to_name nm level (l_assign l) true))))) /\
+      tget cols row (KField rl conf) = Some (render (KField rl conf) (Some (DNum (conf_value conf l)))).
+Proof.
+  intros Hconf Hnd H. unfold blob_to_table, blob_to_df in H.
+  destruct (mapM (cell_record nm hier) b) as [recs|] eqn:E; cbn in H; [|discriminate].
+  apply Ok_inj in H. inversion H; subst cols rows; clear H.
+  split; [rewrite !map_length; eapply mapM_length; exact E|].
+  intros i cl row Hb Hrow.
+  destruct (mapM_nth _ _ _ _ _ E Hb) as (r & Hr & Hri).
+  rewrite !map_map in Hrow. rewrite nth_error_map, Hri in Hrow. cbn in Hrow. inversion Hrow; subst row; clear Hrow.
+  unfold tget.
+  set (cols := all_cols recs).
+  assert (Hrin : In r recs) by (eapply nth_error_In; exact Hri).
+  assert (Hget : forall k v, keep_col conf sticky k = true -> klookup k r = Some v ->
+            klookup k (combine (select (map (keep_col conf sticky) cols) cols)
+                         (map2 render
+                               (select (map (keep_col conf sticky) cols) cols)
+                               (select (map (keep_col conf sticky) cols) (map (fun k => klookup k r) cols))))
+            = Some (render k (Some v))).
+  { intros k v Hk Hv.
+    rewrite (select_lookup (keep_col conf sticky) (fun k => klookup k r) render cols k Hk).
+    - rewrite Hv. reflexivity.
+    - eapply all_cols_incl; [exact Hrin|]. eapply klookup_in. exact Hv. }
+  destruct (cell_record_values nm hier cl r Hnd Hr) as (Hid & Hlv).
+  split; [exact (Hget KId _ eq_refl Hid)|].
+  intros j level l Hh Hl. cbv zeta. set (rl := level_to_name nm level).
+  pose proof (Hlv j level l Hh Hl) as Hx. cbv zeta in Hx. fold rl in Hx. destruct Hx as (HA & HB & HC & HD).
+  split; [exact (Hget (KLabel rl) _ eq_refl HA)|].
+  split; [exact (Hget (KName rl) _ eq_refl HB)|].
+  split; [intros Hlen; exact (Hget (KAlias rl) _ eq_refl (HC Hlen))|].
+  assert (Hk : keep_col conf sticky (KField rl conf) = true) by (cbn; rewrite Nat.eqb_refl; reflexivity).
+  exact (Hget (KField rl conf) _ Hk (HD conf Hconf)).
 Qed.
 
 Theorem csv_rows nm hier meta algo conf sticky categ b c :
   (conf < 2)%nat ->
+  NoDup (map (level_to_name nm) hier) ->
   blob_to_csv nm hier meta algo conf sticky categ b = Ok c ->
   v_comments c = csv_header nm hier meta algo /\
   length (v_rows c) = length b /\
@@ -451,42 +593,26 @@ Theorem csv_rows nm hier meta algo conf sticky categ b c :
     csv_get c row KId = Some (CName (c_id cl)) /\
     forall j level l,
       nth_error hier j = Some level -> nth_error (c_levels cl) j = Some l ->
-      csv_get c row (KLabel j) = Some (CName (l_assign l)) /\
-      csv_get c row (KName j) = Some (CName (label_to_name nm level (l_assign l) false)) /\
+      let rl := level_to_name nm level in
+      csv_get c row (KLabel rl) = Some (CName (l_assign l)) /\
+      csv_get c row (KName rl) = Some (CName (label_to_name nm level (l_assign l) false)) /\
       (S j = length hier ->
-         csv_get c row (KAlias j) = Some (CName (label_to_name nm level (l_assign l) true))) /\
-      csv_get c row (KField j conf) =
-        Some (if nth j categ false then CNumFull (conf_value conf l) else CNum4 (fmt4 (conf_value conf l))).
+         csv_get c row (KAlias rl) = Some (CName (label_to_name nm level (l_assign l) true))) /\
+      csv_get c row (KField rl conf) =
+        Some (if zmem rl categ then CNumFull (conf_value conf l) else CNum4 (fmt4 (conf_value conf l))).
 Proof.
-  intros Hconf H. unfold blob_to_csv, blob_to_df in H.
-  destruct (mapM (cell_record nm hier) b) as [recs|] eqn:E; cbn in H; [|discriminate].
-  inversion H; subst c; clear H. cbn [v_comments v_rows v_cols f_cols f_rows].
-  split; [reflexivity|]. split; [rewrite !map_length; eapply mapM_length; exact E|].
-  intros i cl row Hb Hrow.
-  destruct (mapM_nth _ _ _ _ _ E Hb) as (r & Hr & Hri).
-  rewrite !map_map in Hrow. rewrite nth_error_map, Hri in Hrow. cbn in Hrow. inversion Hrow; subst row; clear Hrow.
-  unfold csv_get. cbn [v_cols].
-  set (cols := all_cols recs).
-  assert (Hrin : In r recs) by (eapply nth_error_In; exact Hri).
-  assert (Hget : forall k v, keep_col conf sticky k = true -> klookup k r = Some v ->
-            klookup k (combine (select (map (keep_col conf sticky) cols) cols)
-                         (map2 (fun k v => csv_cell (col_categ categ k) v)
-                               (select (map (keep_col conf sticky) cols) cols)
-                               (select (map (keep_col conf sticky) cols) (map (fun k => klookup k r) cols))))
-            = Some (csv_cell (col_categ categ k) (Some v))).
-  { intros k v Hk Hv.
-    rewrite (select_lookup (keep_col conf sticky) (fun k => klookup k r)
-                           (fun k v => csv_cell (col_categ categ k) v) cols k Hk).
-    - rewrite Hv. reflexivity.
-    - eapply all_cols_incl; [exact Hrin|]. eapply klookup_in. exact Hv. }
-  destruct (cell_record_values nm hier cl r Hr) as (Hid & Hlv).
-  split; [rewrite (Hget KId _ eq_refl Hid); reflexivity|].
-  intros j level l Hh Hl. destruct (Hlv j level l Hh Hl) as (A & B & C & D).
-  split; [rewrite (Hget (KLabel j) _ eq_refl A); reflexivity|].
-  split; [rewrite (Hget (KName j) _ eq_refl B); reflexivity|].
-  split; [intros Hlen; rewrite (Hget (KAlias j) _ eq_refl (C Hlen)); reflexivity|].
-  assert (Hk : keep_col conf sticky (KField j conf) = true) by (cbn; rewrite Nat.eqb_refl; reflexivity).
-  rewrite (Hget (KField j conf) _ Hk (D conf Hconf)). cbn. reflexivity.
+  intros Hconf Hnd H. unfold blob_to_csv in H.
+  destruct (blob_to_table (fun k v => csv_cell (col_categ categ k) v) nm hier conf sticky b) as [[cols rows]|] eqn:E;
+    cbn [bind] in H; [|discriminate].
+  apply Ok_inj in H. subst c. cbn [v_comments v_rows v_cols fst snd]. split; [reflexivity|].
+  destruct (table_rows _ nm hier conf sticky b cols rows Hconf Hnd E) as (Hlen & Hrows).
+  split; [exact Hlen|].
+  intros i cl row Hb Hrow. destruct (Hrows i cl row Hb Hrow) as (Hid & Hlv). unfold csv_get. cbn [v_cols].
+  split; [exact Hid|].
+  intros j level l Hh Hl. cbv zeta. set (rl := level_to_name nm level).
+  pose proof (Hlv j level l Hh Hl) as Hx. cbv zeta in Hx. fold rl in Hx. destruct Hx as (HA & HB & HC & HD).
+  split; [exact HA|]. split; [exact HB|]. split; [exact HC|].
+  rewrite HD. cbn. reflexivity.
 Qed.
 
 (* a level whose readable name contains 'label' / 'name' / 'alias' / 'assignment' does not get its
@@ -494,11 +620,34 @@ Qed.
 Lemma csv_confidence_not_rounded_on_categorical_level :
   exists nm hier conf sticky categ b c row,
     blob_to_csv nm hier None 0 conf sticky categ b = Ok c /\ nth_error (v_rows c) 0 = Some row /\
-    csv_get c row (KField 0 conf) = Some (CNumFull (1, 3)).
+    csv_get c row (KField 7 conf) = Some (CNumFull (1, 3)).
 Proof.
-  exists (mkNaming None None), [7], 0%nat, [true], [true],
+  exists (mkNaming None None), [7], 0%nat, [7], [7],
          [mkCell 1 [mkLvl 10 (1, 3) (1, 4) (1, 2) true (Some (mkRun [] [] []))]].
   eexists. eexists. split; [vm_compute; reflexivity|]. split; [reflexivity|]. vm_compute. reflexivity.
+Qed.
+
+(* F31: two levels with ONE readable name.  Hierarchy [7; 8], hierarchy_mapper 7 -> 70, 8 -> 70; one cell
+   (id 100) assigned to node 1 (p = 0.37) at level 7 and to node 11 (p = 0.25) at level 8.  The CSV has
+   five columns -- the alias column of the leaf comes LAST, after the confidence -- and the assignment of
+   level 7 appears nowhere: what c15_csv_rows promises for j = 0 is false *)
+Definition dup_nm : naming := mkNaming (Some [(7, 70); (8, 70)]) None.
+Definition dup_blob : blob :=
+  [mkCell 100 [mkLvl 1 (37, 100) (1, 2) (37, 100) true (Some (mkRun [] [] []));
+               mkLvl 11 (1, 4) (1, 2) (1, 4) true (Some (mkRun [] [] []))]].
+Lemma csv_duplicate_readable_level :
+  exists c row,
+    map (level_to_name dup_nm) [7; 8] = [70; 70] /\
+    blob_to_csv dup_nm [7; 8] None 0 0 [] [] dup_blob = Ok c /\
+    v_cols c = [KId; KLabel 70; KName 70; KField 70 0; KAlias 70] /\
+    v_rows c = [row] /\ row = [CName 100; CName 11; CName 11; CNum4 2500; CName 11] /\
+    nth_error [7; 8] 0 = Some 7 /\
+    csv_get c row (KLabel (level_to_name dup_nm 7)) <> Some (CName 1) /\
+    csv_get c row (KField (level_to_name dup_nm 7) 0) <> Some (CNum4 (fmt4 (37, 100))).
+Proof.
+  eexists. eexists. split; [reflexivity|]. split; [vm_compute; reflexivity|].
+  split; [reflexivity|]. split; [reflexivity|]. split; [reflexivity|]. split; [reflexivity|].
+  split; vm_compute; discriminate.
 Qed.
 
 (* ------------------------------------------------------------------ *)
